@@ -48,6 +48,10 @@ package state
 //@   local todoBlk *xldgpb.InternalBlock
 //@   at Meta.UpdateNextIrreversibleBlockHeight assert irr_args_current: $0 == todoBlk.Height && $1 == t.meta.Meta.IrreversibleBlockHeight && $2 == t.meta.Meta.IrreversibleSlideWindow
 //@   at State.updateLatestBlockid assert irr_update_dominates_pointer: sel(irrUpdFor, ifacePtr($1)) == todoBlk.Height && bytesEq($0, todoBlk.Blockid)
+// The published meta follows the staged one block by block: whenever the next block is taken
+// up (and so whenever the walk stops early), what readers and the undo guard see is the
+// irreversible height as of the last block written - not the one from before the walk.
+//@   loop 1 invariant [C17] published_height_follows_every_block: old(t.meta.Meta.IrreversibleBlockHeight) == old(t.meta.MetaTmp.IrreversibleBlockHeight) ==> t.meta.Meta.IrreversibleBlockHeight == t.meta.MetaTmp.IrreversibleBlockHeight
 // C01: one batch per replayed block; its transactions are played in block order in
 // that batch (after verification), and the pointer moves to the block in the same batch.
 //@   local batch kvdb.Batch
@@ -67,6 +71,7 @@ package state
 //@   at State.undoPayFee assert undo_guarded: ledgerPrune || undoBlk.Height > curIrreversibleBlockHeight
 //@   at State.updateLatestBlockid assert undo_guarded: ledgerPrune || undoBlk.Height > curIrreversibleBlockHeight
 //@   at Meta.UpdateNextIrreversibleBlockHeightForPrune assert prune_only: ledgerPrune
+//@   loop 1 invariant [C17] published_height_follows_every_block: old(t.meta.Meta.IrreversibleBlockHeight) == old(t.meta.MetaTmp.IrreversibleBlockHeight) ==> t.meta.Meta.IrreversibleBlockHeight == t.meta.MetaTmp.IrreversibleBlockHeight
 // C01: one batch per undone block; every transaction of the block is undone in that
 // batch and the pointer moves, in the same batch, to the block's parent.
 //@   local batch kvdb.Batch
